@@ -1,4 +1,4 @@
-"""C19 command line: K1 (-q silences stdout), K2 (library never writes stdout), K3 (exit codes), K4 (handlers record errors), Y1."""
+"""C19 command line: K1 (-q silences stdout), K2 (library never writes stdout), K3 (exit codes), Y1."""
 import r_cli, r_lex
 from common import apply, maybe_mutants, control
 
@@ -7,7 +7,7 @@ def run(prog, rep, tier):
     rep.clause = ("K1: in main()'s CFG every stdout write after the option loop is unreachable once `verbosity` (only ever 0 or -1) is -1; "
                   "K2: no library function references std::cout/stdout/printf-family (positive control under /verif/controls must be found); "
                   "Y1: flex's DFA analysis finds no matchable default (ECHO to stdout) rule; K3: main returns only constants in {0,1,2} and both "
-                  "function-level handlers return 2; K4: both handlers of the per-input try record the error through the overload that sets `errors`; K4b: that overload interpreted from source for every "
+                  "function-level handlers return 2; (that both handlers of the per-input try record the error is decided by K8: main() interpreted with executions that throw a std::exception and something else); K4b: that overload interpreted from source for every "
                   "(-s given?, verbosity, flag before): it sets the flag exactly when verbosity >= 0, independent of -s, and returns std::cerr exactly when -s is absent.")
     rep.clause += (" K8: main() interpreted from source on ~1400 abstract command lines (all combinations of -c -q -s -H -h, 0-3 files openable or not, "
                    "0-2 -a/--a arguments yielding 0-2 values, five execution plans incl. errors before and after results; getopt, the libzwerg C API, "
@@ -20,7 +20,6 @@ def run(prog, rep, tier):
     control(rep, "K2", r_cli.k2, ["verif_control_writes_cout", "verif_control_printf"])
     apply(rep, "Y1", "scanner has no matchable default rule; <<EOF>> per start condition", r_lex.y1(prog), 4)
     apply(rep, "K3", "exit status constants", r_cli.k3(prog), 10)
-    apply(rep, "K4", "per-input handlers record errors", r_cli.k4(prog), 2)
     apply(rep, "K4b", "the error is recorded whether or not -s silences its text (error_message interpreted)", r_cli.k4b(prog), 1)
     apply(rep, "K5", "status flags accumulate over all inputs", r_cli.k5(prog), 2)
     apply(rep, "K7", "`-a X` passes X itself as one string value (parse_arg_literal interpreted with the libzwerg API modelled)", r_cli.k7(prog), 1)
